@@ -1,0 +1,20 @@
+//go:build verif
+
+package parse
+
+// ExportedToken is a lexer token made visible to the verification harness.
+type ExportedToken struct {
+	Type  int
+	Pos   int
+	Value string
+}
+
+// Tokens returns every token the lexer sends for input, in order.
+func Tokens(input string) []ExportedToken {
+	l := lex(input)
+	var out []ExportedToken
+	for t := range l.tokens {
+		out = append(out, ExportedToken{Type: int(t.Type), Pos: int(t.Pos), Value: t.Value})
+	}
+	return out
+}
